@@ -17,7 +17,7 @@ PROP = "C12"
 LEVEL = "exploration"
 ENGINE = "BL"
 N = {"quick": 6000, "thorough": 400000}
-TIME = {"quick": 40, "thorough": 420}
+TIME = {"quick": 300, "thorough": 420}
 RULE = ("Rebalancing.make_trades on generated (holdings, targets, quotes, threshold) with targets crafted per contract from "
         "{random, zero, absent, imbalance weight exactly at / 1e-9 below / 1e-9 above the threshold, sub-lot imbalance in (-1,1)}, "
         "tiny (notional below a fixed commission); weight and contract-count measures, fractional and whole-lot modes, cash listed or not, thresholds {0,0.01,0.05,0.2}, fixed/proportional fees. "
